@@ -202,7 +202,7 @@ func init() {
 			b := 50
 			return []interface{}{t, g.value(t.DataType(), 0, &b)}
 		}
-		for depth := 1; depth <= 12; depth++ {
+		for _, depth := range []int{1, 2, 3, 4, 5, 6, 7, 8, 9, 10, 11, 12, 16, 31, 32, 33, 34, 40, 64, 65, 100, 129, 257} {
 			for variant := 0; variant < 4; variant++ {
 				var args []interface{}
 				for k := 0; k < depth; k++ {
@@ -224,6 +224,20 @@ func init() {
 				if variant == 2 {
 					buildsCase(cw, [][]interface{}{args, args[:len(args)-1], {rscp.BAT_REQ_DATA}}, fmt.Sprintf("nested depth=%d", depth))
 				}
+			}
+		}
+		// unknown tags next to known ones: a tag that is not in the table takes no value, whatever its neighbours in the
+		// number space are (the same number with the request/response bit flipped, ±1, the next group)
+		for k := 0; k < 40; k++ {
+			t := g.known[g.pick(len(g.known))]
+			for _, u := range []rscp.Tag{t ^ (1 << 23), t + 1, t - 1, t ^ 0x00010000, t | 0x80000000} {
+				if u.IsATag() {
+					continue
+				}
+				buildCase(cw, []interface{}{u}, "unknown-neighbour alone")
+				buildCase(cw, []interface{}{u, uint16(0)}, "unknown-neighbour with value")
+				buildCase(cw, []interface{}{rscp.BAT_REQ_DATA, u, uint16(0)}, "unknown-neighbour nested with value")
+				buildCase(cw, []interface{}{rscp.BAT_REQ_DATA, u, g.byType[rscp.None][0]}, "unknown-neighbour nested")
 			}
 		}
 		// pointer arguments in value position
@@ -273,6 +287,9 @@ func refBuild(args []interface{}) (*rscp.Message, []interface{}, string) {
 	}
 	rest := args[1:]
 	dt := tag.DataType()
+	if !tag.IsATag() {
+		dt = rscp.None // a tag the vocabulary does not name takes no value and opens no container
+	}
 	switch dt {
 	case rscp.None:
 		return &rscp.Message{Tag: tag, DataType: dt}, rest, ""
